@@ -234,7 +234,8 @@ pub fn gen_noise(cx: &mut Ctx, phase: Phase, own: u16, max_pair: usize) -> Rec {
         Phase::Idle => cx.ch.weighted(&[4, 3, 2, 0, 0, 2, 1, 1]),
         Phase::Params => cx.ch.weighted(&[4, 3, 2, 2, 2, 0, 1, 1]),
         Phase::Stream => cx.ch.weighted(&[4, 3, 2, 2, 2, 0, 1, 1]),
-        Phase::Either => cx.ch.weighted(&[4, 3, 1, 0, 0, 0, 0, 1]),
+        // foreign-id stream/params/abort records are skipped by whichever parser consumes them: position independent
+        Phase::Either => cx.ch.weighted(&[4, 3, 1, 2, 0, 0, 0, 1]),
     };
     match kind {
         0 => {
